@@ -53,8 +53,9 @@ def h_fill(ctx, L=4, k=3):
     ctx.event('fill-checked')
 
 
-def h_add(ctx, nadds=3, timeframe='1m'):
-    """CandlesState.add_candle with symbolic integer timestamps (new / equal to a stored one / older)"""
+def h_add(ctx, nadds=3, timeframe='1m', prefill=0):
+    """CandlesState.add_candle with symbolic integer timestamps (new / equal to a stored one / older); `prefill` concrete
+    candles (one per step) are stored first, so that the symbolic adds meet a longer series"""
     from .apih import ApiSession
     cfg = S.config_dict('futures', fee=0.0)
     api = ApiSession(cfg, symbols=(S.SYMBOL,), price0=100.0)
@@ -66,8 +67,12 @@ def h_add(ctx, nadds=3, timeframe='1m'):
     arr = store.candles.get_storage(api.exchange_name, S.SYMBOL, timeframe)
     arr.flush()
     model = []  # list of (timestamp, marker) in store order
+    for i in range(prefill):
+        c0 = np.array([START + step * (i + 1), 100.0 + i, 100.0 + i, 100.0 + i, 100.0 + i, 100.0 + i])
+        store.candles.add_candle(c0, api.exchange_name, S.SYMBOL, timeframe, with_execution=False, with_generation=False)
+        model.append((START + step * (i + 1), 100.0 + i))
     for kk in range(nadds):
-        m = ctx.int('m%d' % kk, 1, 6)
+        m = ctx.int('m%d' % kk, 1, 6 if not prefill else prefill + 2)
         ts = START + step * m
         marker = float(kk + 1)
         cnd = np.empty(6, dtype=object)
@@ -77,7 +82,9 @@ def h_add(ctx, nadds=3, timeframe='1m'):
         raised = False
         try:
             store.candles.add_candle(cnd, api.exchange_name, S.SYMBOL, timeframe, with_execution=False, with_generation=False)
-        except IndexError:
+        except IndexError as e:
+            if 'only integers' in str(e):  # numpy's wording for an index object it could not convert: a proxy reached ndarray indexing
+                raise sx.Concretization('symbolic value used as an ndarray index')
             raised = True
         # list model
         if not model or bool(ts > model[-1][0]):
@@ -173,6 +180,9 @@ def _jobs(tier):
         jobs.append(Job('fill_L%d_k%d' % (L, k), h_fill, {'L': L, 'k': k}))
     for n, tf in adds:
         jobs.append(Job('add_%d_%s' % (n, tf), h_add, {'nadds': n, 'timeframe': tf}))
+    for n, tf, pre in ((1, '1m', 19), (1, '1m', 22), (2, '1m', 23), (1, '3m', 25)) if tier == 'quick' else \
+            ((1, '1m', 19), (1, '1m', 20), (1, '1m', 21), (1, '1m', 22), (2, '1m', 23), (1, '3m', 25), (2, '1m', 40), (1, '1m', 100)):
+        jobs.append(Job('add_%d_%s_pre%d' % (n, tf, pre), h_add, {'nadds': n, 'timeframe': tf, 'prefill': pre}))
     for a, b in ((3, 3), (3, 2), (4, 1)) if tier == 'quick' else ((3, 3), (3, 2), (4, 1), (5, 3), (2, 2), (6, 3)):
         jobs.append(Job('addmulti_%d_%d' % (a, b), h_add_multiple, {'first': a, 'second': b}, {'concretize_int_range': (0, 16)}))
     jobs.append(Job('spacing', h_spacing, {'n': 3}))
